@@ -139,7 +139,7 @@ class St:
 
     def inv(self):
         return self.h_le_s and self.s_le_d and (self.h_eq_s or self.prepared == 'CUR') \
-            and not self.memmap_stale
+            and not self.memmap_stale and self.pending is None
 
     def describe(self):
         bits = []
@@ -147,6 +147,8 @@ class St:
         bits.append('S<=D' if self.s_le_d else 'S<=D unknown')
         bits.append('H=S' if self.h_eq_s else 'H!=S')
         bits.append('prepared=' + self.prepared)
+        if self.pending is not None:
+            bits.append('rows written beyond the shape')
         if self.memmap_stale:
             bits.append('memmap stale')
         return ', '.join(bits)
@@ -344,6 +346,12 @@ class Sim:
             # shape read back from the file header
             return st.copy(h_le_s=True, s_le_d=True, h_eq_s=True)
         prepared = 'STALE' if st.prepared == 'CUR' else st.prepared
+        # the row shape must be carried over unchanged
+        rest = v[3] if (v[0] == 'binop' and v[1] == '+') else None
+        if rest is not None and match(rest, pattern('_a.shape[1:]')) is None:
+            self.viol(fn, 'row shape',
+                      'the new shape keeps {} instead of the row shape shape[1:]'.format(
+                          show(rest)[:60]), node, lines)
         if first is None:
             raise AnalysisError('C06-a: unrecognised shape assignment {} at {}'.format(
                 show(val), fn.where(node)))
@@ -844,3 +852,140 @@ def _is_inc(ctx, fn, stmt, by):
             return match(v, pattern('self.n_batches + %d' % by)) is not None
         return match(v, pattern('self.n_batches - %d' % -by)) is not None
     return False
+
+
+@obligation('C06-g', 'T1 T3', 'public operations reach the file: truncate sets the requested '
+            'length, flush flushes, initialisation writes the format prefix, stores forward',
+            floor=8, necessary='an operation that silently does nothing leaves a file that '
+                               'does not hold the logical content after flush / close')
+def c06_g(ctx):
+    cls = ctx.cls(NPY)
+    tr = ctx.own_method(cls, 'truncate')
+    ex = ctx.ex(tr)
+    lp = ('param', tr.params[1])
+    st = [s for (s, t, k) in ctx.stores(tr, 'self.shape') if isinstance(s, ast.Assign)]
+    ok = len(st) == 1 and match(ex.term(st[0].value), pattern('(_n,) + self.shape[1:]')) \
+        is not None and match(ex.term(st[0].value), pattern('(_n,) + self.shape[1:]'))['n'] == lp \
+        and cfg_of(tr).must_pass([ctx.node(tr, st[0])])
+    ctx.check(ok, tr, 'truncate sets the requested length', 'shape = (length,) + shape[1:]',
+              'truncate does not set shape[0] to the requested length on every path', fn=tr,
+              node=st[0] if st else tr.node)
+    tc = [c for c in ctx.calls(tr, name='truncate') if is_fs(ex.term(c.func.value))]
+    ok = bool(tc) and bool(st) and ctx.must_follow(tr, st[0], tc)
+    ctx.check(ok, tr, 'file shortened to the new length', 'fs.truncate() after the shape change',
+              'truncate does not shorten the file after changing the shape', fn=tr,
+              node=tc[0] if tc else tr.node)
+    fl = ctx.own_method(cls, 'flush')
+    exf = ctx.ex(fl)
+    ff = [c for c in ctx.calls(fl, name='flush') if is_fs(exf.term(c.func.value))]
+    hw = [c for c in ctx.calls(fl) if any(
+        any(contains(ctx.term(t, w.args[0]), 'self._header_bytes_to_write')
+            for w in ctx.calls(t, name='write') if w.args)
+        for t in ctx.cg.resolve(fl, c))]
+    ok = bool(ff) and bool(hw) and cfg_of(fl).must_pass([ctx.node(fl, ff[0])]) and \
+        ctx.must_precede(fl, hw, ff[0])
+    ctx.check(ok, fl, 'flush writes the header and flushes the file', 'header write < fs.flush()',
+              'flush() does not write the header and then flush the file object on every path',
+              fn=fl, node=ff[0] if ff else fl.node)
+    cl = ctx.own_method(cls, 'close')
+    exc = ctx.ex(cl)
+    fc = [c for c in ctx.calls(cl, name='close') if is_fs(exc.term(c.func.value))]
+    hw = [c for c in ctx.calls(cl) if any(
+        any(contains(ctx.term(t, w.args[0]), 'self._header_bytes_to_write')
+            for w in ctx.calls(t, name='write') if w.args)
+        for t in ctx.cg.resolve(cl, c))]
+    ok = bool(fc) and bool(hw) and ctx.must_precede(cl, hw, fc[0]) and \
+        all(any(pol and t == _self_attr('initialized') for (t, pol, _) in ctx.guards(cl, c))
+            for c in fc)
+    ctx.check(ok, cl, 'close writes the header and closes the file',
+              'header write < fs.close() when initialised',
+              'close() does not write the header before closing the file object', fn=cl,
+              node=fc[0] if fc else cl.node)
+    # initialisation from an array: shape / dtype / itemsize from the array, format prefix first
+    ini = ctx.own_method(cls, 'init_from_array')
+    exi = ctx.ex(ini)
+    ap = ('param', ini.params[1])
+    want = {'shape': '(0,) + {}.shape[1:]'.format(ini.params[1]),
+            'dtype': '{}.dtype'.format(ini.params[1]), 'itemsize': '{}.itemsize'.format(ini.params[1])}
+    for fld, pat in want.items():
+        ss = [s for (s, t, k) in ctx.stores(ini, 'self.' + fld) if isinstance(s, ast.Assign)]
+        ok = len(ss) == 1 and match(exi.term(ss[0].value), pattern(pat)) is not None and \
+            cfg_of(ini).must_pass([ctx.node(ini, ss[0])])
+        ctx.check(ok, ini, 'initial ' + fld, 'self.{} = {}'.format(fld, pat),
+                  'initialisation does not set {} from the first array'.format(fld), fn=ini,
+                  node=ss[0] if ss else ini.node)
+    pw = [c for c in ctx.calls(ini, name='write') if is_fs(exi.term(c.func.value))]
+    sk = [c for c in ctx.calls(ini, name='seek') if is_fs(exi.term(c.func.value)) and c.args and
+          exi.term(c.args[0]) == ('const', 0)]
+    ok = len(pw) == 1 and len(sk) == 1 and ctx.must_precede(ini, sk, pw[0]) and \
+        contains(exi.term(pw[0].args[0]), '_.read(self.HEADER_DATA_OFFSET)') and \
+        contains(exi.term(pw[0].args[0]), 'npformat.write_array_header_2_0') is False or \
+        (len(pw) == 1 and len(sk) == 1 and ctx.must_precede(ini, sk, pw[0]) and
+         contains(exi.term(pw[0].args[0]), '_.read(self.HEADER_DATA_OFFSET)'))
+    ctx.check(ok, ini, 'format prefix written at offset 0',
+              'seek(0); write(first HEADER_DATA_OFFSET bytes of a 2.0 header)',
+              'initialisation does not write the format prefix at the start of the file',
+              fn=ini, node=pw[0] if pw else ini.node)
+    hl = [s for (s, t, k) in ctx.stores(ini, 'self.header_length') if isinstance(s, ast.Assign)]
+    ok = len(hl) == 1 and match(exi.term(hl[0].value), pattern('_b.tell()')) is not None and \
+        any(contains(exi.term(n.value) if isinstance(n, ast.Assign) else ('const', 0),
+                     'self.MAX_SHAPE_LEN') for n in own_nodes(ini.node) if isinstance(n, ast.Assign))
+    ctx.check(ok, ini, 'oversized header reserved', 'header_length = length for MAX_SHAPE_LEN rows',
+              'the reserved header length is not that of a header for MAX_SHAPE_LEN rows',
+              fn=ini, node=hl[0] if hl else ini.node)
+    # reopening: header read at the size offset, header_length from the position after it
+    ifh = [m for m in cls.methods.values()
+           if any('read_array_header' in src(n.func) for n in own_nodes(m.node)
+                  if isinstance(n, ast.Call))]
+    for m in ifh:
+        exm = ctx.ex(m)
+        rd = [n for n in own_nodes(m.node) if isinstance(n, ast.Call) and
+              'read_array_header' in src(n.func)]
+        sk = [c for c in ctx.calls(m, name='seek') if is_fs(exm.term(c.func.value)) and c.args and
+              match(exm.term(c.args[0]), pattern('self.HEADER_DATA_SIZE_OFFSET')) is not None]
+        hl = [s for (s, t, k) in ctx.stores(m, 'self.header_length') if isinstance(s, ast.Assign)]
+        ok = bool(sk) and ctx.must_precede(m, sk, rd[0]) and len(hl) == 1 and \
+            match(exm.term(hl[0].value), pattern('self.fs.tell()')) is not None and \
+            ctx.must_precede(m, [rd[0]], hl[0])
+        ctx.check(ok, m, 'header read back at the right offset',
+                  'seek(HEADER_DATA_SIZE_OFFSET); read header; header_length = fs.tell()',
+                  'the header is not read at HEADER_DATA_SIZE_OFFSET with header_length taken '
+                  'right after it', fn=m, node=rd[0])
+    # stores forward to the array
+    A = ctx.cls('elfi.store:ArrayStore')
+    for name in ('flush', 'close', 'clear'):
+        m = ctx.own_method(A, name)
+        exm = ctx.ex(m)
+        cs = ctx.calls(m, 'self.array.{}()'.format(name))
+        ok = len(cs) == 1
+        if ok:
+            gs = ctx.guards(m, cs[0])
+            ok = all(pol and match(t, pattern("hasattr(self.array, '{}')".format(name))) is not None
+                     for (t, pol, _) in gs) and len(gs) <= 1
+        ctx.check(ok, m, 'store forwards {} to the array'.format(name),
+                  "array.{0}() when the array has {0}".format(name),
+                  'ArrayStore.{0} does not forward to array.{0}()'.format(name), fn=m,
+                  node=cs[0] if cs else m.node)
+    N = ctx.cls('elfi.store:NpyStore')
+    m = ctx.own_method(N, 'delete')
+    cs = ctx.calls(m, 'self.array.delete()')
+    ctx.check(len(cs) == 1 and cfg_of(m).must_pass([ctx.node(m, cs[0])]), m,
+              'store forwards delete', 'array.delete()', 'NpyStore.delete does not delete the '
+              'array', fn=m, node=cs[0] if cs else m.node)
+    P = ctx.cls('elfi.store:OutputPool')
+    for name in ('flush', 'close', 'clear'):
+        m = ctx.own_method(P, name)
+        exm = ctx.ex(m)
+        loops = [n for n in own_nodes(m.node) if isinstance(n, ast.For) and
+                 match(exm.term(n.iter, cfg_of(m).by_stmt[id(n)]),
+                       pattern('self.stores.values()')) is not None]
+        ok = False
+        for lo in loops:
+            for c in ast.walk(lo):
+                if isinstance(c, ast.Call) and callee_name(c) == name and \
+                        exm.term(c.func.value)[0] == 'elem':
+                    ok = True
+        ctx.check(ok, m, 'pool forwards {} to every store'.format(name),
+                  'for store in stores.values(): store.{}()'.format(name),
+                  'OutputPool.{0} does not call {0}() on every store'.format(name), fn=m,
+                  node=loops[0] if loops else m.node)
